@@ -5,6 +5,7 @@ package main
 // through tabula.Open by name.
 
 import (
+	"strings"
 	"fmt"
 	"os"
 	"path/filepath"
@@ -126,6 +127,31 @@ func writeDocFiles() {
 			{Num: 11, Stm: &pdfw.Stream{Data: []byte("BT /F1 12 Tf 20 200 Td (ABC) Tj ET /X1 Do")}}}}}
 		fb, _, ferr := f.Bytes()
 		put("pdfSharedRes", ".pdf", fb, ferr)
+	}
+	// one page whose resources hold 140 MacRoman fonts (code 0x8A is a-diaeresis there, S-caron in WinAnsi), each used once: whatever
+	// a reader does per font (registration order, limits, caches) must not depend on the order a map happens to yield them
+	{
+		fonts := pdfw.Dict{}
+		var body strings.Builder
+		its := []pdfw.Item{
+			{Num: 1, Val: pdfw.Dict{{"Type", pdfw.Name("Catalog")}, {"Pages", pdfw.Ref{Num: 2}}}},
+			{Num: 2, Val: pdfw.Dict{{"Type", pdfw.Name("Pages")}, {"Kids", pdfw.Arr{pdfw.Ref{Num: 3}}}, {"Count", pdfw.Int(1)}}}}
+		body.WriteString("BT\n")
+		for k := 0; k < 140; k++ {
+			name := fmt.Sprintf("F%d", k+1)
+			fonts = append(fonts, pdfw.KV{K: name, V: pdfw.Ref{Num: 10 + k}})
+			its = append(its, pdfw.Item{Num: 10 + k, Val: pdfw.Dict{{"Type", pdfw.Name("Font")}, {"Subtype", pdfw.Name("Type1")}, {"BaseFont", pdfw.Name("Helvetica")},
+				{"Encoding", pdfw.Name("MacRomanEncoding")}}})
+			fmt.Fprintf(&body, "/%s 10 Tf 1 0 0 1 %d %d Tm (\\212%c) Tj\n", name, 40+26*(k%20), 740-30*(k/20), 'a'+k%26)
+		}
+		body.WriteString("ET\n")
+		its = append(its, pdfw.Item{Num: 3, Val: pdfw.Dict{{"Type", pdfw.Name("Page")}, {"Parent", pdfw.Ref{Num: 2}}, {"MediaBox", pdfw.Arr{pdfw.Int(0), pdfw.Int(0), pdfw.Int(612), pdfw.Int(792)}},
+			{"Resources", pdfw.Dict{{"Font", fonts}}}, {"Contents", pdfw.Ref{Num: 4}}}},
+			pdfw.Item{Num: 4, Stm: &pdfw.Stream{Data: []byte(body.String())}})
+		f := &pdfw.File{EOL: "lf"}
+		f.Revs = []pdfw.Revision{{XRef: "table", Root: pdfw.Ref{Num: 1}, Items: its}}
+		mb, _, merr := f.Bytes()
+		put("pdfManyFonts", ".pdf", mb, merr)
 	}
 	// six pages, each with its own marker: for selections built step by step on shared base extractors
 	{
@@ -424,7 +450,7 @@ func init() {
 				out = append(out, swapDoc(n))
 			}
 		}
-		for _, n := range []string{"pdfA", "pdfA2", "pdfB", "pdfB2", "pdfTie", "pdfSharedRes", "pdfC", "pdfWide", "pdfStd", "docx", "xlsx", "pptx", "odt", "epub", "html", "bad", "trunc"} {
+		for _, n := range []string{"pdfA", "pdfA2", "pdfB", "pdfB2", "pdfTie", "pdfSharedRes", "pdfManyFonts", "pdfC", "pdfWide", "pdfStd", "docx", "xlsx", "pptx", "odt", "epub", "html", "bad", "trunc"} {
 			if docFilePaths[n] != "" {
 				out = append(out, fileDoc(n))
 			}
